@@ -911,6 +911,33 @@ def targeted_sets(seed):
                                                     'lib.custom': libc,
                                                     'app': M([('first', M([('__include', S('lib:/misc'))])),
                                                               ('second', M([('__include', S('lib:/shape'))]))])}))
+    # 18. (round 5) the same patch reference more than once in one patch list, in every spelling of the reference, with an
+    #     entry in between that sets a key the repeated patch sets too, and appending entries inside the repeated patch
+    presets = M([('patches', M([('enable', M([('mode', S('on')), ('log/@next', S('enable'))])),
+                                ('disable', M([('mode', S('off')), ('log/@next', S('disable'))]))]))])
+    for name, plist in (('cross-file', [S('presets:/patches/enable'), S('presets:/patches/disable'), S('presets:/patches/enable')]),
+                        ('spellings', [S('presets:/patches/enable'), S('presets.yaml:/patches/disable'), S('presets:/patches/enable?'),
+                                       S('presets.yaml:/patches/enable')]),
+                        ('with-literal', [S('presets:/patches/enable'), M([('mode', S('literal'))]), S('presets:/patches/enable')])):
+        out.append(('repeated-patch-reference:' + name,
+                    {'presets': presets, 'alpha': M([('settings', M([('mode', S('initial')), ('log', L([S('start')])), ('__patch', L(plist))]))])}))
+    out.append(('repeated-patch-reference:local',
+                {'alpha': M([('local', M([('bump', M([('counter/+', S('x'))])), ('clear', M([('counter', S(''))]))])),
+                             ('node', M([('counter', S('0')),
+                                         ('__patch', L([S('/local/bump'), S('/local/bump?'), S('/local/clear'), S('/local/bump')]))]))])}))
+    # 19. (round 5) keys with a slash inside maps that are merged as trees: siblings of an include, values of key/+ and __merge
+    commonp = M([('patches', M([('common', M([('menu/page_size', S('5')), ('style/horizontal', S('true'))]))])),
+                 ('menu', M([('page_size', S('9')), ('layout', S('grid'))]))])
+    out.append(('slash-keys:include-sibling',
+                {'base': commonp, 'alpha': M([('my_patch', M([('__include', S('base:/patches/common')), ('menu/alternative_select_keys', S('XYZ'))])),
+                                             ('plain', M([('__include', S('base:/menu')), ('deep', M([('a/b', w())]))]))])}))
+    out.append(('slash-keys:applied',
+                {'base': commonp, 'alpha': M([('my_patch', M([('__include', S('base:/patches/common')), ('menu/alternative_select_keys', S('XYZ'))])),
+                                             ('menu', M([('page_size', S('9')), ('layout', S('grid'))])),
+                                             ('__patch', S('/my_patch'))])}))
+    out.append(('slash-keys:append-merge',
+                {'base': commonp, 'alpha': M([('t', M([('__include', S('base:/patches')), ('common/+', M([('style/vertical', S('false'))]))])),
+                                             ('u', M([('__include', S('base:/patches')), ('common', M([('__merge', M([('a/b/c', w())]))]))]))])}))
     return out
 
 
